@@ -30,6 +30,7 @@ type World struct {
 	altDrop map[int][]int
 	c       *Case
 	Stats   *Stats
+	tags    []string
 }
 
 type Stats struct {
@@ -76,7 +77,7 @@ func (w *World) div(step int, kind, detail string) *Divergence {
 		op = w.c.Steps[step].Op.K
 	}
 	return &Divergence{Case: w.c.ID, Fam: w.c.Fam, DT: w.Cfg.D.Name, Pal: w.Cfg.Pal.Name, Cfg: w.Cfg.Name,
-		Step: step, Op: op, Kind: kind, Detail: detail, Path: w.c.PathString()}
+		Step: step, Op: op, Kind: kind, Detail: detail, Path: w.c.PathString(), Tags: append([]string{}, w.tags...)}
 }
 
 func safeCall(f func() execResult) (r execResult) {
@@ -110,6 +111,7 @@ func Run(c *Case, cfg Config, stats *Stats) (*Divergence, Outcome) {
 			panic("no replayer for op " + st.Op.K)
 		}
 		last := i == len(c.Steps)-1
+		w.noteTags(st)
 		r := safeCall(func() execResult { return f(w, st) })
 		stats.Calls++
 		stats.ByOp[st.Op.K]++
@@ -429,6 +431,26 @@ func (w *World) compareAlt(i int, st *Step, r execResult) *Divergence {
 		}
 	}
 	return nil
+}
+
+func (w *World) noteTags(st *Step) {
+	if len(st.Res.X) == 0 || st.Res.X[0] != '{' {
+		return
+	}
+	var x struct {
+		Tags []string `json:"tags"`
+	}
+	if json.Unmarshal(st.Res.X, &x) == nil {
+		for _, t := range x.Tags {
+			dup := false
+			for _, o := range w.tags {
+				dup = dup || o == t
+			}
+			if !dup {
+				w.tags = append(w.tags, t)
+			}
+		}
+	}
 }
 
 func (w *World) evFor(tr *TRec) *vals.Evaluator {
